@@ -264,3 +264,65 @@ func VC_C07_history() {
 
 // thorough tier: up to five apply/undo rounds
 func VC_C07x_history() { vRounds07 = 5; VC_C07_history() }
+
+// an interface that embeds another one and adds methods whose names sort around it
+type vSvcEmb interface {
+	vSvc1 // Only
+	Zeta(x int) int
+	alpha(x int) int
+}
+
+var vSvcE vSvcEmb
+
+func vCbOnly(ctx *IContext, x int) int  { return x + 11 }
+func vCbZeta(ctx *IContext, x int) int  { return x + 12 }
+func vCbalpha(ctx *IContext, x int) int { return x + 13 }
+
+// VC_C07_embedded: methods of an interface with an embedded interface (promoted method,
+// own exported and unexported methods): any subset mocked, each slot reaches its own
+// replacement, the others notImplement.
+func VC_C07_embedded() {
+	vEnv()
+	stub.VerifResetMmap()
+	vSvcE = nil
+	t := reflect.TypeOf(&vSvcE).Elem()
+	names := [3]string{"Only", "Zeta", "alpha"}
+	cbs := [3]interface{}{vCbOnly, vCbZeta, vCbalpha}
+	b := Create()
+	var mocked [3]bool
+	any := false
+	for i := 0; i < 3; i++ {
+		if verifBool(names[i] + ".mocked") {
+			mocked[i] = true
+			any = true
+			b.Interface(&vSvcE).Method(names[i]).Apply(cbs[i])
+		}
+	}
+	if !any {
+		verifAssert(vSvcE == nil, "C07.embedded.untouched-without-mocks")
+		return
+	}
+	verifAssert(vSvcE != nil, "C07.embedded.variable-non-nil")
+	if vSvcE == nil {
+		return
+	}
+	x := verifInt("x")
+	for i := 0; i < 3; i++ {
+		j := vSlotOf(t, names[i])
+		verifAssert(j >= 0, "C07.embedded.method-in-table")
+		f, recv, notImpl := vDispatch(unsafe.Pointer(&vSvcE), j, "C07.embedded")
+		if !mocked[i] {
+			verifAssert(notImpl, "C07.embedded.unmocked-slot-is-notImplement")
+			continue
+		}
+		verifAssert(!notImpl && f != nil, "C07.embedded.mocked-slot-has-stub")
+		if notImpl || f == nil {
+			continue
+		}
+		r, p := vCall07(f, recv, x)
+		verifAssert(!p && r == x+11+i, "C07.embedded.own-replacement-with-callers-argument")
+	}
+	b.Reset()
+	verifAssert(vSvcE == nil, "C07.embedded.reset-restores-previous-value")
+	verifReached("C07.embedded")
+}
